@@ -519,3 +519,24 @@ pub proof fn vx_lemma_below_empty(s: Seq<u8>, d: int)
     reveal(Seq::filter);
     if d > 0 { vx_lemma_below_empty(s, d - 1); }
 }
+
+/// positions of occurrences are increasing in the occurrence index
+pub proof fn vx_lemma_select_mono<B>(s: Seq<B>, c: B, k1: int, p1: int, k2: int, p2: int)
+    requires vx_is_select(s, c, k1, p1), vx_is_select(s, c, k2, p2), k1 <= k2
+    ensures p1 <= p2, k1 < k2 ==> p1 < p2
+{
+    if p1 > p2 {
+        vx_lemma_rank_step(s, c, p2);
+        vx_lemma_rank_mono(s, c, p2 + 1, p1);
+    }
+    if p1 == p2 && k1 < k2 { }
+}
+
+/// rank right after the (k+1)-th occurrence is k+1; before it at most k
+pub proof fn vx_lemma_select_rank<B>(s: Seq<B>, c: B, k: int, p: int, x: int)
+    requires vx_is_select(s, c, k, p), 0 <= x <= s.len()
+    ensures x <= p ==> vx_rank(s, c, x) <= k, x > p ==> vx_rank(s, c, x) >= k + 1
+{
+    if x <= p { vx_lemma_rank_mono(s, c, x, p); }
+    else { vx_lemma_rank_step(s, c, p); vx_lemma_rank_mono(s, c, p + 1, x); }
+}
